@@ -120,6 +120,8 @@ func main() {
 	lap("(v) edited parsed headers")
 	runStream(o)
 	lap("(iv) streamed payload lengths")
+	runHistory(o)
+	lap("(vii) Marshal after failed Marshal")
 	runCLI(o)
 	lap("(vi) command line routes")
 
